@@ -38,6 +38,9 @@ def groups(tier, seed):
     for key in ('accessed', 'created', 'modified'):
         for desc in (False, True):
             yield {'kind': 'arcdate', 'key': key, 'desc': desc, 'keys': [key], 'cases': []}
+    # keys some rows have no value for, next to negative and fractional values; whole numbers beyond 2^53; years beyond 9999
+    for fam in ('empty', 'bigint', 'fardate'):
+        yield {'kind': 'oddkeys', 'fam': fam, 'keys': [fam], 'cases': []}
     for kl in lists:
         n = len(kl)
         if True:
@@ -59,6 +62,8 @@ def groups(tier, seed):
 
 
 def single(case):
+    if case.get('kind') == 'oddkeys':
+        return {'kind': 'oddkeys', 'fam': case['fam'], 'keys': [case['fam']], 'cases': [], 'only': [case['key'], case['desc'], case['rd'], case['limit']]}
     if case.get('kind') == 'arcdate':
         return {'kind': 'arcdate', 'key': case['key'], 'desc': case['desc'], 'keys': [case['key']], 'cases': [], 'only': case['variant']}
     return {'keys': case['keys'], 'cases': [{k: case[k] for k in ('dirs', 'spell', 'where', 'rd', 'tz') if k in case}]}
@@ -121,9 +126,109 @@ def eval_arcdate(env, group):
     return outs
 
 
+def eval_oddkeys(env, group):
+    import math
+    import os
+    import subprocess
+    import tempfile
+    from fractions import Fraction
+    fam = group['fam']
+    F, D = core.F, core.D
+    outs = []
+    shm = None
+    if fam == 'empty':
+        root = env.newdir('c5o')
+        lines = {'a1': 1, 'b3': 3, 'c2': 2, 'd7': 7, 'e0': 0, 'f10': 10, 'g3': 3}
+        tree = {n: F(data=b'x\n' * k) for n, k in lines.items()}
+        tree['0dir'] = D({'h5': F(data=b'x\n' * 5), 'zsub': D({})})
+        tree['mdir'] = D({'i4': F(data=b'x\n' * 4)})
+        tree['zdir'] = D({})
+        core.materialise(root, tree)
+        val = {n: k for n, k in lines.items()}
+        val.update(h5=5, i4=4)
+        keys = {'line_count': lambda k: Fraction(k), '-line_count': lambda k: Fraction(-k), 'sqrt(line_count)': lambda k: math.sqrt(k),
+                'line_count - 3': lambda k: Fraction(k - 3), 'line_count / 4': lambda k: Fraction(k, 4), 'line_count * -1.5': lambda k: Fraction(-3 * k, 2)}
+        value = lambda name, kf: kf(val[name]) if name in val else None
+    else:
+        if not (os.path.isdir('/dev/shm') and os.access('/dev/shm', os.W_OK)):
+            return [{'case': {'kind': 'oddkeys', 'fam': fam}, 'status': 'ok', 'nt': False, 'layer': 'odd-keys', 'sig': ('no-tmpfs',)}]
+        shm = root = tempfile.mkdtemp(prefix='fsx-c05-', dir='/dev/shm')
+        if fam == 'bigint':
+            sizes = {'p53': 2 ** 53, 'p53a': 2 ** 53 + 1, 'p53b': 2 ** 53 + 2, 'p53m': 2 ** 53 - 1, 'p60': 2 ** 60, 'p60a': 2 ** 60 + 1, 'p60m': 2 ** 60 - 1, 'small': 7}
+            for i, (n, v) in enumerate(sizes.items()):
+                d = os.path.join(root, 'd%d' % (i % 3))
+                os.makedirs(d, exist_ok=True)
+                with open(os.path.join(d, n), 'wb') as fh:
+                    fh.truncate(v)
+            if os.lstat(os.path.join(root, 'd1', 'p53a')).st_size != 2 ** 53 + 1:
+                subprocess.run(['rm', '-rf', shm])
+                return [{'case': {'kind': 'oddkeys', 'fam': fam}, 'status': 'ok', 'nt': False, 'layer': 'odd-keys', 'sig': ('no-big-files',)}]
+            keys = {'size': lambda v: v}
+            value = lambda name, kf: sizes.get(name)
+        else:
+            stamps = {'y2030': 1893456000, 'y12024': 317277907200, 'y2025': 1735689600, 'y10000': 253402300800, 'y9999': 253402300799, 'bce': -62198755200,
+                      'y0001': -62135596800 + 86400, 'y19999': 568943395200}
+            for i, (n, ts) in enumerate(stamps.items()):
+                d = os.path.join(root, 'd%d' % (i % 3))
+                os.makedirs(d, exist_ok=True)
+                open(os.path.join(d, n), 'w').close()
+                os.utime(os.path.join(d, n), (ts, ts))
+            if int(os.lstat(os.path.join(root, 'd1', 'y12024')).st_mtime) != 317277907200:
+                subprocess.run(['rm', '-rf', shm])
+                return [{'case': {'kind': 'oddkeys', 'fam': fam}, 'status': 'ok', 'nt': False, 'layer': 'odd-keys', 'sig': ('no-far-stamps',)}]
+            keys = {'modified': lambda v: v}
+            value = lambda name, kf: stamps.get(name)
+    try:
+        for key, kf in keys.items():
+            for desc in (False, True):
+                for rd in ('sorted', 'rev'):
+                    for limit in (0, 3):
+                        if group.get('only') is not None and group['only'] != [key, desc, rd, limit]:
+                            continue
+                        w = '' if fam == 'empty' else ' where is_file = true'
+                        q = 'name from .%s order by %s%s%s into list' % (w, key, ' desc' if desc else '', ' limit %d' % limit if limit else '')
+                        o = env.run([q], cwd=root, preload=True, env={'FSX_READDIR': rd, 'TZ': 'UTC'})
+                        res = {'case': {'kind': 'oddkeys', 'fam': fam, 'key': key, 'desc': desc, 'rd': rd, 'limit': limit, 'query': q}, 'layer': 'odd-keys', 'nt': True}
+                        rows = o.rows()
+                        if o.timeout or o.rc != 0 or o.err:
+                            res.update(status='viol', cls='status-or-shape', detail=dict(o.brief(), query=q), sig=('err',))
+                            outs.append(res)
+                            continue
+                        res['trans'] = len(rows) + 1
+                        have = [(n, value(n, kf)) for n in rows]
+                        valued = [(n, v) for n, v in have if v is not None]
+                        bad = next((i for i in range(len(valued) - 1) if valued[i][1] != valued[i + 1][1] and (valued[i][1] > valued[i + 1][1]) != desc), None)
+                        if bad is not None:
+                            res.update(status='viol', cls='unsorted:' + fam, sig=('unsorted', key),
+                                       detail={'query': q, 'pair': [valued[bad][0], valued[bad + 1][0]], 'readdir': rd, 'rows': rows[:12]})
+                        elif not limit and len(rows) != (13 if fam == 'empty' else 8):
+                            res.update(status='viol', cls='not-a-permutation', sig=('perm',), detail={'query': q, 'n': len(rows)})
+                        elif limit and fam != 'empty':
+                            # with a limit the rows are the first of the full order (all keys differ)
+                            full = sorted((value(n, kf), n) for n in (sizes if fam == 'bigint' else stamps))
+                            if desc:
+                                full.reverse()
+                            if rows != [n for _, n in full[:limit]]:
+                                res.update(status='viol', cls='limit-not-the-first:' + fam, sig=('limit', key),
+                                           detail={'query': q, 'got': rows, 'expected': [n for _, n in full[:limit]]})
+                            else:
+                                res.update(status='ok', sig=tuple(rows))
+                        else:
+                            res.update(status='ok', sig=tuple(rows))
+                        outs.append(res)
+    finally:
+        if shm:
+            subprocess.run(['rm', '-rf', shm])
+        else:
+            env.rmtree(root)
+    return outs
+
+
 def eval_group(env, group, tier):
     if group.get('kind') == 'arcdate':
         return eval_arcdate(env, group)
+    if group.get('kind') == 'oddkeys':
+        return eval_oddkeys(env, group)
     root = env.newdir('c5')
     core.materialise(root, om.ord_tree())
     keys = group['keys']
